@@ -111,6 +111,54 @@ def run(chk, ctx):
                     "the adjoint-data step ends at the adjoint position")
     shared.rule_units(chk, "C13.SIB-UNITS", both, ctx.repo)
     shared.rule_adv(chk, "C13.SIB-ADV", both, names=("n_advance",))
+    # corresponding planner calls of the two reversal loops are the same polynomials
+    from ..poly import PolyBuilder, padd, patom, pkey, pstr
+
+    def call_polys(run_):
+        cap, attrs = shared.declared_capacity(ctx.repo, run_)
+        seeds = shared.seeds_of(run_.interp)
+        out = []
+        ef_line = min((rec.node.lineno for rec in run_.interp.yields if rec.kind == "EndForward"), default=0)
+
+        def atom(node, pb):
+            if isinstance(node, ast.Attribute) and isinstance(node.value, ast.Name) and node.value.id == "self":
+                return patom("self." + node.attr)
+            if isinstance(node, ast.Call) and getattr(node.func, "id", None) == "len":
+                return patom("DEPTH")
+            if isinstance(node, ast.Name) and node.id == "n0":
+                return patom("POS")
+            return None
+        calls = sorted((n for n in ast.walk(run_.fn) if isinstance(n, ast.Call) and getattr(n.func, "id", None) == "n_advance"
+                        and n.lineno > ef_line), key=lambda n: n.lineno)
+        units_defs = {}
+        for n in ast.walk(run_.fn):
+            if isinstance(n, ast.Assign) and isinstance(n.targets[0], ast.Name) and n.targets[0].id == "n_snapshots":
+                units_defs[n.lineno] = n.value
+        for c in calls:
+            pb = PolyBuilder(atom)
+            steps = pb.poly(c.args[0])
+            u = c.args[1]
+            if isinstance(u, ast.Name) and u.id == "n_snapshots":
+                ln = max((l for l in units_defs if l < c.lineno), default=None)
+                u = units_defs.get(ln, u)
+            units = pb.poly(u)
+            capp = {}
+            for a in attrs:
+                capp = padd(capp, patom(a))
+            for c_, k in seeds.items():
+                capp = padd(capp, {(): k})
+            out.append((c, pkey(steps), pkey(padd(units, capp, -1))))
+        return out
+    cp2, cp1 = call_polys(two[0]), call_polys(ref[0])
+    if len(cp1) != len(cp2) or not cp1:
+        chk.decide("C13.SIB", f"{two[0].construct}#planner-calls", None if cp1 and cp2 else None,
+                   f"{len(cp2)} planner calls in the block reversal, {len(cp1)} in the Multistage reversal", rel=two[0].rel, node=two[0].fn)
+    else:
+        for k, ((c2, s2, u2), (c1, s1, u1)) in enumerate(zip(cp2, cp1)):
+            same = s2 == s1 and u2 == u1
+            chk.decide("C13.SIB", f"{two[0].construct}#planner-call[{k}]", True if same else False,
+                       f"steps {pstr(dict(s2))} / units-capacity {pstr(dict(u2))}  vs. Multistage steps {pstr(dict(s1))} / "
+                       f"units-capacity {pstr(dict(u1))}", rel=two[0].rel, node=c2)
     r2, r1 = roles(two[0]), roles(ref[0])
     cons = f"{two[0].construct}#roles"
     chk.decide("C13.SIB", cons, None if (r1 is None or r2 is None) else (True if r1 == r2 else False),
